@@ -1,7 +1,8 @@
-(* C39 — lemmas about the connection LTS of Model/C39.v *)
+(* C39 — the invariant of the connection LTS and its consequences over all reachable states *)
 From Coq Require Import List NArith ZArith Bool Arith Lia String.
 Import ListNotations.
-From V Require Import Base.ConnView Gen.ConnSites Model.C39.
+From V Require Import Base.ConnView Gen.ConnSites Model.C39
+  Proofs.C39Base Proofs.C39Measure Proofs.C39Calls Proofs.C39Flight Proofs.C39Holders Proofs.C39Done.
 
 (* ---- K-gen obligations: what the translator read from conn.go is what the model was written against *)
 Lemma sites_match : conn_sites = modelled_sites.
@@ -13,3 +14,155 @@ Proof. vm_compute. reflexivity. Qed.
 Lemma access_match :
   state_access_funcs = modelled_state_access /\ retire_callers = modelled_retire_callers /\ chan_closers = modelled_chan_closers.
 Proof. vm_compute. repeat split; reflexivity. Qed.
+(* the regenerated decision functions mean what the proofs use *)
+Lemma gen_idle_spec s :
+  idle s = true <-> s_outgoing s = [] /\ s_outNotifs s = 0 /\ s_incoming s = 0 /\ s_handlerRunning s = false.
+Proof. apply idle_spec. Qed.
+Lemma gen_shutting_down_spec s : shutting_down s = s_connClosing s || s_readErr s || s_writeErr s.
+Proof. apply sd_spec. Qed.
+
+(* ---- reachability *)
+Inductive reachable (p : bool) : state -> Prop :=
+  | reach_init : reachable p (init p)
+  | reach_step s l s' : reachable p s -> step s l = Ok s' -> reachable p s'.
+
+Lemma reachable_run p ls s : run (init p) ls = Ok s -> reachable p s.
+Proof.
+  assert (G : forall ls s0 s, reachable p s0 -> run s0 ls = Ok s -> reachable p s).
+  { induction ls0 as [|l ls0 IH]; simpl; intros s0 s1 R H.
+    - injection H as <-; assumption.
+    - destruct (step s0 l) eqn:E; try discriminate. eapply IH; [|eassumption]. eapply reach_step; eauto. }
+  intros H. eapply G; [apply reach_init | eassumption].
+Qed.
+
+Record Inv (s : state) : Prop := {
+  inv_C : InvC s; inv_N : InvN s; inv_A : InvA s; inv_B : InvB s; inv_D : InvD s }.
+
+Lemma Inv_init p : Inv (init p).
+Proof. constructor; [apply InvC_init | apply InvN_init | apply InvA_init | apply InvB_init | apply InvD_init]. Qed.
+
+Lemma Inv_body s l s1 : Inv s -> body_step s l = Ok s1 -> Inv s1.
+Proof.
+  intros [C N A B D] H. constructor.
+  - eapply InvC_body; eauto.
+  - eapply InvN_body; eauto.
+  - eapply InvA_body; eauto.
+  - eapply InvB_body; eauto.
+  - eapply InvD_body; eauto.
+Qed.
+Lemma Inv_epi s s' : Inv s -> epi s = Ok s' -> Inv s'.
+Proof.
+  intros [C N A B D] H. constructor.
+  - eapply InvC_epi; eauto.
+  - eapply InvN_epi; eauto.
+  - eapply InvA_epi; eauto.
+  - eapply InvB_epi; eauto.
+  - eapply InvD_epi; eauto.
+Qed.
+Lemma Inv_step s l s' : Inv s -> step s l = Ok s' -> Inv s'.
+Proof.
+  unfold step. intros I H. destruct (body_step s l) as [s1| |] eqn:B; try discriminate.
+  pose proof (Inv_body _ _ _ I B) as I1. destruct (is_section l).
+  - eapply Inv_epi; eauto.
+  - injection H as <-; assumption.
+Qed.
+Lemma reachable_inv p s : reachable p s -> Inv s.
+Proof. induction 1; [apply Inv_init | eapply Inv_step; eauto]. Qed.
+
+(* ---- no panic *)
+Lemma Inv_no_panic s l pn : Inv s -> step s l <> Panic pn.
+Proof.
+  unfold step. intros I H. destruct (body_step s l) as [s1|p1|] eqn:B; try discriminate.
+  - pose proof (Inv_body _ _ _ I B) as I1. destruct (is_section l); [|discriminate].
+    eapply epi_no_panic; [apply (inv_D _ I1) | eassumption].
+  - pose proof (no_counter_panic _ _ _ (inv_N _ I) B). subst p1.
+    eapply no_retire_panic; [apply (inv_C _ I) | eassumption | reflexivity].
+Qed.
+Lemma no_panic p s l pn : reachable p s -> step s l <> Panic pn.
+Proof. intros R. apply Inv_no_panic. eapply reachable_inv; eauto. Qed.
+
+(* ---- outgoing calls *)
+Lemma map_iff p s i c : reachable p s ->
+  (In (i, c) (s_outgoing s) <->
+   exists cr, nth_error (s_calls s) c = Some cr /\ c_id cr = Some i /\ c_reg cr = true /\ c_resp cr = None).
+Proof.
+  intros R. pose proof (inv_C _ (reachable_inv _ _ R)) as I. split.
+  - intros H. destruct (ic_out _ _ _ I _ _ H) as (cr & A & B & C & D). eauto.
+  - intros (cr & A & B & C & D). destruct (ck_reg _ _ _ _ (ic_calls _ _ _ I _ _ A) C D) as (i' & X & Y). congruence.
+Qed.
+Lemma own_id p s c cr r : reachable p s -> nth_error (s_calls s) c = Some cr -> c_resp cr = Some r ->
+  c_id cr = Some (rs_id r).
+Proof. intros R E H. eapply ck_resp; [eapply ic_calls; [apply (inv_C _ (reachable_inv _ _ R)) | eassumption] | assumption]. Qed.
+Lemma await_own_id p s c r s' : reachable p s -> step s (LAwait c r) = Ok s' ->
+  exists cr, nth_error (s_calls s) c = Some cr /\ c_id cr = Some (rs_id r) /\ s' = s.
+Proof.
+  intros R H. unfold step in H. destruct (body_step s (LAwait c r)) as [s1| |] eqn:B; try discriminate.
+  cbn [is_section] in H. injection H as <-. inv_body B.
+  match goal with E : _ && _ = true |- _ => apply andb_prop in E as [X _] end. apply id_eqb_eq in X.
+  eexists. split; [reflexivity|]. split; [|reflexivity]. rewrite X. eapply own_id; eauto.
+Qed.
+Lemma unique_ids p s c c' cr cr' i : reachable p s ->
+  nth_error (s_calls s) c = Some cr -> nth_error (s_calls s) c' = Some cr' -> c_id cr = Some i -> c_id cr' = Some i -> c = c'.
+Proof. intros R. apply (ic_uniq _ _ _ (inv_C _ (reachable_inv _ _ R))). Qed.
+Lemma resp_stable p s l s' c cr r : reachable p s -> step s l = Ok s' ->
+  nth_error (s_calls s) c = Some cr -> c_resp cr = Some r ->
+  exists cr', nth_error (s_calls s') c = Some cr' /\ c_resp cr' = Some r.
+Proof.
+  intros R H E X. unfold step in H. destruct (body_step s l) as [s1| |] eqn:B; try discriminate.
+  destruct (resp_stable_body _ _ _ _ _ _ (inv_C _ (reachable_inv _ _ R)) B E X) as (cr' & A & A' & _).
+  destruct (is_section l).
+  - exists cr'. split; [|assumption]. unfold epi in H. break_match H; injection H as <-; simp_state; assumption.
+  - injection H as <-. eauto.
+Qed.
+Lemma call_returned_retired_or_pending p s c cr : reachable p s -> nth_error (s_calls s) c = Some cr ->
+  returned_pc (c_pc cr) = true ->
+  c_resp cr <> None \/ exists i, c_id cr = Some i /\ In (i, c) (s_outgoing s).
+Proof.
+  intros R E H. pose proof (ic_calls _ _ _ (inv_C _ (reachable_inv _ _ R)) _ _ E) as K.
+  destruct (ck_ret _ _ _ _ K H) as [X|X]; [left; assumption|].
+  destruct (c_resp cr) eqn:Y; [left; discriminate | right; apply (ck_reg _ _ _ _ K X Y)].
+Qed.
+
+(* ---- done *)
+Lemma done_facts p s : reachable p s -> s_done s = true ->
+  idle s = true /\ s_reading s = false /\ shutting_down s = true /\ s_closer s = false /\ s_byID s = [].
+Proof.
+  intros R H. pose proof (reachable_inv _ _ R) as I.
+  destruct (id_done _ (inv_D _ I) H) as (A & B & C & D).
+  split; [apply idle_spec; exact A|]. split; [assumption|]. split; [rewrite sd_spec; exact C|]. split; [assumption|].
+  apply (byID_nil_of_idle _ (inv_N _ I) (inv_B _ I)). apply A.
+Qed.
+Lemma retired_when_done p s c cr : reachable p s -> s_done s = true -> nth_error (s_calls s) c = Some cr ->
+  (c_reg cr = true \/ returned_pc (c_pc cr) = true) -> c_resp cr <> None.
+Proof.
+  intros R H E X. destruct (done_facts _ _ R H) as (A & _). apply idle_spec in A. destruct A as [O _].
+  pose proof (ic_calls _ _ _ (inv_C _ (reachable_inv _ _ R)) _ _ E) as K.
+  assert (G : c_reg cr = true -> c_resp cr <> None).
+  { intros G Y. destruct (ck_reg _ _ _ _ K G Y) as (i & _ & Hin). rewrite O in Hin. destruct Hin. }
+  destruct X as [X|X]; [auto|]. destruct (ck_ret _ _ _ _ K X); auto.
+Qed.
+Lemma done_stable s l s' : step s l = Ok s' -> s_done s = true -> s_done s' = true.
+Proof.
+  unfold step. intros H D. destruct (body_step s l) as [s1| |] eqn:B; try discriminate.
+  assert (D1 : s_done s1 = true) by (destruct l; inv_body B; simp_state; first [assumption | congruence]).
+  destruct (is_section l); [|injection H as <-; assumption].
+  unfold epi in H. rewrite D1 in H. break_match H; injection H as <-; assumption.
+Qed.
+Lemma closed_once p s : reachable p s -> s_rwc_closes s <= 1 /\ s_ondones s <= 1 /\
+  (s_done s = true -> s_rwc_closes s = 1 /\ s_ondones s = 1).
+Proof.
+  intros R. pose proof (inv_D _ (reachable_inv _ _ R)) as D.
+  rewrite (id_rwc _ D), (id_ondone _ D). split; [destruct (s_closer s); lia|]. split; [destruct (s_done s); lia|].
+  intros H. destruct (id_done _ D H) as (_ & _ & _ & C). rewrite C, H. auto.
+Qed.
+
+(* ---- incoming requests *)
+Lemma answered_once p s r rq : reachable p s -> nth_error (s_reqs s) r = Some rq -> rq_answers rq <= 1.
+Proof. intros R E. pose proof (ia_once _ (inv_A _ (reachable_inv _ _ R)) _ _ E). lia. Qed.
+(* once answered, nobody holds the request in a stage from which it could be answered again *)
+Lemma answered_no_writer p s r rq : reachable p s -> nth_error (s_reqs s) r = Some rq -> rq_answers rq = 1 -> HW s r = 0.
+Proof. intros R E H. pose proof (ia_once _ (inv_A _ (reachable_inv _ _ R)) _ _ E). lia. Qed.
+Lemma counters p s : reachable p s ->
+  s_outNotifs s = notif_count s /\ s_incoming s = in_flight s /\
+  s_handlerRunning s = match s_handler s with HNone => false | _ => true end.
+Proof. intros R. destruct (inv_N _ (reachable_inv _ _ R)); auto. Qed.
